@@ -52,6 +52,11 @@ def _ty(t):
     return k
 
 
+def nightly_installed():
+    rc, out = sh(['rustup', 'toolchain', 'list'], timeout=60)
+    return rc == 0 and 'nightly' in out
+
+
 def implementors(flavour):
     """{trait: sorted set of heads} or (None, why)"""
     tdir = '%s/target-doc-%s%s' % (CACHE, flavour, vlib.TAG)
@@ -123,6 +128,10 @@ def stage(traits, catalogue_types, rust):
         imp, why = implementors(flavour)
         if imp is None:
             stats['source_cover'][flavour] = {'usable': False, 'why': why}
+            if nightly_installed():
+                # the toolchain is there, so the stage is part of the check: its failure (a timeout, a crate that no longer
+                # documents) is not "no verdict"
+                dis.append({'what': 'the list of implementors could not be produced for the %s build although a nightly toolchain is installed: %s' % (flavour, why[:300])})
             continue
         rec = {'usable': True}
         for tr in traits:
